@@ -506,10 +506,19 @@ type Shape struct {
 	Amounts     []int  `json:"amounts,omitempty"`
 	Compounding bool   `json:"compounding,omitempty"`
 	MultiAddr   bool   `json:"multi_addr,omitempty"` // one fee recipient / withdrawal address per validator
+	// DefFile: create the cluster with --definition-file from a definition of version DefVersion built
+	// in the harness (cluster.NewDefinition; Signed = operators and creator signed, cluster.NewForT).
+	DefFile    bool   `json:"def_file,omitempty"`
+	DefVersion string `json:"def_version,omitempty"`
+	Signed     bool   `json:"signed,omitempty"`
+	// CreatorSigned: Definition is a ready-made definition signed by its creator only (operators
+	// without address), built in-package by harness/overlay/cluster/zz_verif_c12_test.go.
+	CreatorSigned bool            `json:"creator_signed,omitempty"`
+	Definition    json.RawMessage `json:"definition,omitempty"`
 }
 
 func (s Shape) String() string {
-	return fmt.Sprintf("n=%d t=%d v=%d %s amounts=%v comp=%v multi=%v", s.Nodes, s.Threshold, s.Validators, s.Network, s.Amounts, s.Compounding, s.MultiAddr)
+	return fmt.Sprintf("n=%d t=%d v=%d %s amounts=%v comp=%v multi=%v def=%v %s signed=%v", s.Nodes, s.Threshold, s.Validators, s.Network, s.Amounts, s.Compounding, s.MultiAddr, s.DefFile, s.DefVersion, s.Signed)
 }
 
 func shapeAddrs(s Shape) (fee, wd []string) {
@@ -527,6 +536,92 @@ func shapeAddrs(s Shape) (fee, wd []string) {
 		wd = append(wd, addrOf(w))
 	}
 	return fee, wd
+}
+
+// validatorAddrs is shapeAddrs expanded to one pair per validator.
+func validatorAddrs(s Shape) (fee, wd []string) {
+	f, w := shapeAddrs(s)
+	for i := 0; i < s.Validators; i++ {
+		fee = append(fee, f[i%len(f)])
+		wd = append(wd, w[i%len(w)])
+	}
+	return fee, wd
+}
+
+// buildDefinition makes the definition file content for a DefFile shape.
+func buildDefinition(t *testing.T, s Shape) cluster.Definition {
+	t.Helper()
+	fee, wd := validatorAddrs(s)
+	for i := range fee { // the definition-file path insists on EIP-55 checksummed addresses
+		var e1, e2 error
+		fee[i], e1 = eth2util.ChecksumAddress(fee[i])
+		wd[i], e2 = eth2util.ChecksumAddress(wd[i])
+		if e1 != nil || e2 != nil {
+			t.Fatal(e1, e2)
+		}
+	}
+	th := s.Threshold
+	if th == 0 {
+		th = cluster.Threshold(s.Nodes)
+	}
+	fv, err := eth2util.NetworkToForkVersion(s.Network)
+	if err != nil {
+		t.Fatal(err)
+	}
+	fvb, _ := eth2util.NetworkToForkVersionBytes(s.Network)
+	vi := vnum(s.DefVersion)
+	gas := uint(0)
+	if vi >= vnum("v1.10.0") {
+		gas = 30000000
+	}
+	amounts := s.Amounts
+	if vi < vnum("v1.8.0") {
+		amounts = nil
+	}
+	opts := []func(*cluster.Definition){cluster.WithVersion(s.DefVersion), func(d *cluster.Definition) { d.Timestamp = "2024-01-02T03:04:05Z" }}
+	if vi < vnum("v1.5.0") {
+		opts = append(opts, cluster.WithLegacyVAddrs(fee[0], wd[0]))
+	}
+	if s.Signed {
+		opts = append(opts, cluster.WithForkVersion(fvb), func(d *cluster.Definition) {
+			d.Name = "verif"
+			d.TargetGasLimit = gas
+			d.Compounding = s.Compounding && vi >= vnum("v1.10.0")
+			d.DepositAmounts = deposit.EthsToGweis(amounts)
+			if vi >= vnum("v1.5.0") {
+				for i := range d.ValidatorAddresses {
+					d.ValidatorAddresses[i] = cluster.ValidatorAddresses{FeeRecipientAddress: fee[i], WithdrawalAddress: wd[i]}
+				}
+			}
+		})
+		lock, _, _ := cluster.NewForT(t, s.Validators, th, s.Nodes, 77, rand.New(rand.NewSource(77)), opts...) //nolint:gosec
+		return lock.Definition
+	}
+	def, err := cluster.NewDefinition("verif", s.Validators, th, fee, wd, fv, cluster.Creator{}, make([]cluster.Operator, s.Nodes), amounts,
+		"", gas, s.Compounding && vi >= vnum("v1.10.0"), rand.New(rand.NewSource(int64(s.Nodes*100+s.Validators))), opts...) //nolint:gosec
+	if err != nil {
+		t.Fatalf("build definition %s: %v", s, err)
+	}
+	return def
+}
+
+// createFromDefinition writes def to a file and runs `charon create cluster --definition-file`.
+func createFromDefinition(bin, dir string, def cluster.Definition) (string, []byte, error) {
+	b, err := json.MarshalIndent(def, "", " ")
+	if err != nil {
+		return "", nil, err
+	}
+	fn := filepath.Join(dir, "input-definition.json")
+	if err := os.MkdirAll(dir, 0o755); err != nil {
+		return "", b, err
+	}
+	if err := os.WriteFile(fn, b, 0o600); err != nil {
+		return "", b, err
+	}
+	cmd := exec.Command(bin, "create", "cluster", "--insecure-keys", "--cluster-dir="+dir, "--definition-file="+fn)
+	cmd.Env = append(os.Environ(), "HOME="+dir)
+	out, err := cmd.CombinedOutput()
+	return string(out), b, err
 }
 
 // createCluster runs `charon create cluster` (the binary built from the checked working tree).
@@ -561,6 +656,9 @@ type ShapeResult struct {
 	Subsets  int      `json:"subsets_combined"`
 	Checks   int      `json:"checks"`
 	Failures []string `json:"failures"`
+	Refused  bool     `json:"refused,omitempty"` // the command refused the (operator-signed) definition, as it must
+	// InputDefinition: the definition file handed to --definition-file (DefFile shapes).
+	InputDefinition json.RawMessage `json:"input_definition,omitempty"`
 }
 
 func subsetsOf(n, k int) [][]int {
@@ -585,7 +683,39 @@ func checkShape(t *testing.T, bin string, s Shape, exhaustive bool, rnd func(int
 	failf := func(format string, a ...any) { res.Failures = append(res.Failures, fmt.Sprintf(format, a...)) }
 	ok := func() { res.Checks++ }
 	dir := t.TempDir()
-	if out, err := createCluster(bin, dir, s); err != nil {
+	fee, wd := validatorAddrs(s)
+	var inDef *cluster.Definition
+	if s.DefFile {
+		var def cluster.Definition
+		if len(s.Definition) > 0 {
+			if err := json.Unmarshal(s.Definition, &def); err != nil {
+				failf("ready-made definition does not decode: %v", err)
+				return res
+			}
+		} else {
+			def = buildDefinition(t, s)
+		}
+		inDef = &def
+		out, raw, err := createFromDefinition(bin, dir, def)
+		res.InputDefinition = raw
+		if err != nil && s.Signed {
+			// A definition carrying operator addresses / signatures cannot be turned into a valid lock by
+			// create cluster (it replaces the operators): the command must refuse it and write no lock.
+			res.Refused = true
+			for i := 0; i < s.Nodes; i++ {
+				if _, e := os.Stat(filepath.Join(dir, fmt.Sprintf("node%d", i), "cluster-lock.json")); e == nil {
+					failf("create cluster refused the operator-signed definition but wrote node%d/cluster-lock.json", i)
+				}
+			}
+			ok()
+			return res
+		}
+		if err != nil {
+			failf("create cluster --definition-file failed on a valid definition: %v: %s", err, lastLines(out, 3))
+			return res
+		}
+		fee, wd = def.FeeRecipientAddresses(), def.WithdrawalAddresses()
+	} else if out, err := createCluster(bin, dir, s); err != nil {
 		failf("create cluster failed: %v: %s", err, lastLines(out, 3))
 		return res
 	}
@@ -661,21 +791,53 @@ func checkShape(t *testing.T, bin string, s Shape, exhaustive bool, rnd func(int
 			ok()
 		}
 	}
+	vi := vnum(lock.Version)
+	compounding := s.Compounding
+	wantAmounts := deposit.EthsToGweis(s.Amounts)
+	if inDef != nil {
+		compounding, wantAmounts = inDef.Compounding, inDef.DepositAmounts
+		// (1b) the definition inside the lock is the input definition: the command only fills in the operators
+		want := *inDef
+		want.Operators = lock.Operators
+		want, err := want.SetDefinitionHashes()
+		if err != nil {
+			failf("input definition with the lock's operators does not hash: %v", err)
+		} else {
+			if !bytes.Equal(want.ConfigHash, lock.ConfigHash) || !bytes.Equal(want.DefinitionHash, lock.DefinitionHash) {
+				failf("the lock's definition is not the input definition (with the generated operators): config hash %x, want %x", lock.ConfigHash, want.ConfigHash)
+			}
+			a, _ := json.Marshal(want)
+			b, _ := json.Marshal(lock.Definition)
+			if !sameDecoded(a, b) {
+				failf("the lock's definition differs from the input definition: %s", firstDiff(a, b))
+			}
+		}
+		unsigned := true
+		for _, o := range inDef.Operators {
+			if o.Address != "" {
+				unsigned = false
+			}
+		}
+		if unsigned && !bytes.Equal(inDef.ConfigHash, lock.ConfigHash) {
+			failf("config hash of the lock %x is not the config hash of the input definition %x", lock.ConfigHash, inDef.ConfigHash)
+		}
+		ok()
+	}
+	if vi >= vnum("v1.8.0") && fmt.Sprint(lock.DepositAmounts) != fmt.Sprint(wantAmounts) {
+		failf("definition deposit amounts %v, want %v", lock.DepositAmounts, wantAmounts)
+	}
+	ok()
 	// (3) deposit data: in the lock and in the per-node files, for the lock's validator keys
-	fee, wd := shapeAddrs(s)
-	amounts := deposit.DefaultDepositAmounts(s.Compounding)
-	if len(s.Amounts) > 0 {
-		amounts = deposit.DedupAmounts(deposit.EthsToGweis(s.Amounts))
+	amounts := deposit.DefaultDepositAmounts(compounding)
+	if len(wantAmounts) > 0 {
+		amounts = deposit.DedupAmounts(append([]eth2p0.Gwei(nil), wantAmounts...))
 	}
 	verifyDD := func(where string, pub, wc []byte, amount uint64, sig []byte, vIdx int) {
 		if !bytes.Equal(pub, lock.Validators[vIdx].PubKey) {
 			failf("%s: deposit pubkey is not validator %d's key", where, vIdx)
 		}
-		w := wd[0]
-		if s.MultiAddr {
-			w = wd[vIdx]
-		}
-		msg, err := deposit.NewMessage(eth2p0.BLSPubKey(pub), w, eth2p0.Gwei(amount), s.Compounding)
+		w := wd[vIdx]
+		msg, err := deposit.NewMessage(eth2p0.BLSPubKey(pub), w, eth2p0.Gwei(amount), compounding)
 		if err != nil {
 			failf("%s: %v", where, err)
 			return
@@ -698,8 +860,15 @@ func checkShape(t *testing.T, bin string, s Shape, exhaustive bool, rnd func(int
 		ok()
 	}
 	for j, v := range lock.Validators {
-		if len(v.PartialDepositData) != len(amounts) {
-			failf("validator %d has %d partial deposits, want %d", j, len(v.PartialDepositData), len(amounts))
+		wantN := len(amounts)
+		switch {
+		case vi < vnum("v1.6.0"):
+			wantN = 0 // the format carries no deposit data
+		case vi < vnum("v1.8.0"):
+			wantN = 1 // a single deposit_data entry
+		}
+		if len(v.PartialDepositData) != wantN {
+			failf("validator %d has %d partial deposits, want %d", j, len(v.PartialDepositData), wantN)
 		}
 		seen := map[uint64]bool{}
 		for _, dd := range v.PartialDepositData {
@@ -707,7 +876,7 @@ func checkShape(t *testing.T, bin string, s Shape, exhaustive bool, rnd func(int
 			verifyDD(fmt.Sprintf("lock validator %d amount %d", j, dd.Amount), dd.PubKey, dd.WithdrawalCredentials, uint64(dd.Amount), dd.Signature, j)
 		}
 		for _, a := range amounts {
-			if !seen[uint64(a)] {
+			if vi >= vnum("v1.8.0") && !seen[uint64(a)] {
 				failf("validator %d: no deposit data for amount %d", j, a)
 			}
 		}
@@ -740,10 +909,10 @@ func checkShape(t *testing.T, bin string, s Shape, exhaustive bool, rnd func(int
 	}
 	// (4) builder registrations (signature checked by VerifySignatures): message consistent with the lock
 	for j, v := range lock.Validators {
-		f := fee[0]
-		if s.MultiAddr {
-			f = fee[j]
+		if vi < vnum("v1.7.0") {
+			break // the format carries no registrations
 		}
+		f := fee[j]
 		reg := v.BuilderRegistration
 		if !strings.EqualFold(addrOf(reg.Message.FeeRecipient), f) {
 			failf("validator %d: registration fee recipient %x, want %s", j, reg.Message.FeeRecipient, f)
@@ -851,6 +1020,31 @@ func copyNode(from, to string) error {
 	return nil
 }
 
+// firstDiff names the first JSON path at which two documents differ.
+func firstDiff(a, b []byte) string {
+	ta, _ := decodeTree(a)
+	tb, _ := decodeTree(b)
+	var na, nb []node
+	walk(normalise(ta), nil, &na)
+	walk(normalise(tb), nil, &nb)
+	for i := range na {
+		if i >= len(nb) {
+			break
+		}
+		_, ca := na[i].val.(map[string]any)
+		_, la := na[i].val.([]any)
+		if ca || la {
+			continue
+		}
+		ja, _ := json.Marshal(na[i].val)
+		jb, _ := json.Marshal(nb[i].val)
+		if pathString(na[i].path) != pathString(nb[i].path) || !bytes.Equal(ja, jb) {
+			return fmt.Sprintf("%s: input %s, lock %s", pathString(na[i].path), ja, jb)
+		}
+	}
+	return "structure differs"
+}
+
 func lastLines(s string, n int) string {
 	l := strings.Split(strings.TrimSpace(s), "\n")
 	if len(l) > n {
@@ -868,10 +1062,37 @@ func shapes(thorough bool, rnd func(int) int) []Shape {
 		{Nodes: 7, Threshold: 5, Validators: 1, Network: "chiado", Amounts: []int{32, 2016}, Compounding: true},
 		{Nodes: 10, Threshold: 0, Validators: 1, Network: "goerli"},
 	}
+	// create cluster FROM A DEFINITION FILE (insecure keys are refused on mainnet/gnosis): deposit amount
+	// lists in every order and with repeats, per-validator addresses, old versions, signed definitions
+	quick = append(quick,
+		Shape{DefFile: true, DefVersion: "v1.11.0", Nodes: 4, Threshold: 3, Validators: 2, Network: "hoodi", Amounts: []int{32, 1}, MultiAddr: true},
+		Shape{DefFile: true, DefVersion: "v1.10.0", Nodes: 3, Threshold: 2, Validators: 1, Network: "sepolia", Amounts: []int{16, 8, 8}},
+		Shape{DefFile: true, DefVersion: "v1.8.0", Nodes: 5, Threshold: 0, Validators: 2, Network: "chiado", Amounts: []int{8, 16, 8}, MultiAddr: true},
+		Shape{DefFile: true, DefVersion: "v1.9.0", Nodes: 3, Threshold: 3, Validators: 1, Network: "goerli", Amounts: []int{1, 32}},
+		Shape{DefFile: true, DefVersion: "v1.11.0", Nodes: 4, Threshold: 0, Validators: 1, Network: "hoodi", Amounts: []int{2016, 32, 32}, Compounding: true},
+		Shape{DefFile: true, DefVersion: "v1.7.0", Nodes: 3, Threshold: 2, Validators: 2, Network: "goerli", MultiAddr: true},
+		Shape{DefFile: true, DefVersion: "v1.4.0", Nodes: 4, Threshold: 3, Validators: 2, Network: "sepolia"},
+		// a definition signed by operators and creator (the command accepts it)
+		Shape{DefFile: true, Signed: true, DefVersion: "v1.11.0", Nodes: 4, Threshold: 3, Validators: 2, Network: "hoodi", Amounts: []int{8, 24}, MultiAddr: true},
+	)
 	if !thorough {
 		return quick
 	}
 	out := append([]Shape{}, quick...)
+	defAmounts := [][]int{nil, {32}, {1, 31}, {31, 1}, {32, 1}, {16, 16}, {16, 8, 8}, {8, 16, 8}, {8, 8, 16}, {8, 8, 8, 8}, {30, 1, 1}, {1, 30, 1}, {32, 32}, {4, 3, 2, 1, 22}}
+	defNets := []string{"hoodi", "sepolia", "goerli", "chiado"}
+	for i, am := range defAmounts {
+		n := 3 + i%5
+		out = append(out, Shape{DefFile: true, DefVersion: []string{"v1.11.0", "v1.10.0", "v1.9.0", "v1.8.0"}[i%4], Nodes: n, Threshold: []int{0, 2, n}[i%3],
+			Validators: 1 + i%3, Network: defNets[i%4], Amounts: am, MultiAddr: i%2 == 0})
+	}
+	for i, v := range Versions {
+		out = append(out, Shape{DefFile: true, DefVersion: v, Nodes: 3 + i%4, Threshold: 0, Validators: 1 + i%2, Network: defNets[i%4], Amounts: []int{24, 8}, MultiAddr: i%2 == 1 && i >= 5})
+	}
+	out = append(out, Shape{DefFile: true, DefVersion: "v1.11.0", Nodes: 4, Threshold: 3, Validators: 2, Network: "hoodi", Amounts: []int{500, 32, 100}, Compounding: true, MultiAddr: true})
+	for _, v := range []string{"v1.2.0", "v1.3.0", "v1.5.0", "v1.8.0", "v1.10.0"} {
+		out = append(out, Shape{DefFile: true, Signed: true, DefVersion: v, Nodes: 3, Threshold: 2, Validators: 1, Network: "sepolia", Amounts: []int{32}})
+	}
 	nets := []string{"mainnet", "goerli", "sepolia", "hoodi", "gnosis", "chiado"}
 	amountSets := [][]int{nil, {32}, {1, 31}, {16, 16}, {8, 8, 8, 8}, {1, 1, 30}, {32, 32}}
 	mk := func(n, th int) Shape {
@@ -902,6 +1123,44 @@ func shapes(thorough bool, rnd func(int) int) []Shape {
 	return out
 }
 
+// creatorShapes turns the creator-signed definitions written by the cluster overlay helper into shapes.
+func creatorShapes(t *testing.T, thorough bool) []Shape {
+	t.Helper()
+	fn := os.Getenv("VERIF_C12_CREATOR_DEFS")
+	if fn == "" {
+		return nil
+	}
+	b, err := os.ReadFile(fn)
+	if err != nil {
+		t.Fatalf("creator-signed definitions: %v", err)
+	}
+	var raws []json.RawMessage
+	if err := json.Unmarshal(b, &raws); err != nil {
+		t.Fatal(err)
+	}
+	var out []Shape
+	for i, raw := range raws {
+		if !thorough && i >= 2 {
+			break
+		}
+		var d cluster.Definition
+		if err := json.Unmarshal(raw, &d); err != nil {
+			t.Fatalf("creator-signed definition %d: %v", i, err)
+		}
+		net, err := eth2util.ForkVersionToNetwork(d.ForkVersion)
+		if err != nil {
+			t.Fatal(err)
+		}
+		var am []int
+		for _, g := range d.DepositAmounts {
+			am = append(am, int(g/deposit.OneEthInGwei))
+		}
+		out = append(out, Shape{DefFile: true, CreatorSigned: true, DefVersion: d.Version, Nodes: len(d.Operators), Threshold: d.Threshold,
+			Validators: d.NumValidators, Network: net, Amounts: am, Compounding: d.Compounding, MultiAddr: true, Definition: raw})
+	}
+	return out
+}
+
 // TestBlackbox creates clusters with the built binary and checks the artefacts against each other.
 func TestBlackbox(t *testing.T) {
 	bin := os.Getenv("VERIF_CHARON_BIN")
@@ -917,7 +1176,7 @@ func TestBlackbox(t *testing.T) {
 	if isReplay, err := hx.ReadReplay(&rp); isReplay && err == nil && rp.Shape != nil {
 		shs = []Shape{*rp.Shape}
 	} else {
-		shs = shapes(hx.Thorough(), rnd)
+		shs = append(shapes(hx.Thorough(), rnd), creatorShapes(t, hx.Thorough())...)
 	}
 	var results []ShapeResult
 	for _, s := range shs {
